@@ -312,6 +312,77 @@ def replay_values(form):
     return {"reproduced": bool(fails), "detail": "; ".join(fails) or "native run shows no deviation"}
 
 
+def check_dim_args(br):
+    """torch.transpose / torch.permute routed to the operator: EVERY spelling of the dimension arguments (positive, negative,
+    mixed, either order) that stays within the batch dimensions or within the matrix dimensions gives the dense answer.
+    Exhaustive over the spellings for the given batch rank (the sizes stay symbolic)."""
+    import itertools
+
+    from contracts import sh_C03, spec
+    from engine import shadow, sym, symops as SO
+
+    sh_C03._env()
+    torch = shadow.torch()
+    from linear_operator.operators import LinearOperator
+
+    nd = br + 2
+    out = []
+    cases = []
+    for d1, d2 in itertools.product(range(-nd, nd), repeat=2):
+        p1, p2 = d1 % nd, d2 % nd
+        if (p1 < br) != (p2 < br):
+            continue  # batch <-> matrix transposes are refused by design (NotImplemented-style RuntimeError); not claimed
+        cases.append(("transpose", (d1, d2)))
+    for perm in itertools.permutations(range(br)):
+        for signs in itertools.product((False, True), repeat=br):
+            dims = tuple((p - nd) if sg else p for p, sg in zip(perm, signs))
+            for tail in ((nd - 2, nd - 1), (-2, -1)):
+                cases.append(("permute", dims + tail))
+    for kind, args in cases:
+        base = f"C15/dims/{kind}{args}/batchrank={br}"
+
+        def thunk(kind=kind, args=args, base=base):
+            c = sym.ctx()
+            a = sh_C03.build("Dense", br)
+            Da = spec.D(a)
+            exp = SO.transpose(Da, *args) if kind == "transpose" else SO.permute(Da, *args)
+            try:
+                got, ge = (torch.transpose(a, *args) if kind == "transpose" else torch.permute(a, args)), None
+            except sym.Unsupported:
+                raise
+            except Exception as e:  # noqa
+                got, ge = None, e
+            c.prove(f"{base}/no-error", z3.BoolVal(ge is None), info=(repr(ge)[:300] + getattr(ge, "__shadow_tb__", "")[-700:]) if ge is not None else None)
+            if ge is not None:
+                return "raise"
+            gd = spec.D(got) if isinstance(got, LinearOperator) else got
+            spec.same_tensor_goals(c, base, gd, exp, dtype=False)
+            return "return"
+
+        paths = sym.explore(thunk, max_paths=16, timeout_ms=20000)
+        out += sh_C03._collect(paths, base, need=("return",), replay={"module": "contracts.sh_C15", "func": "replay_dims", "args": [kind, list(args), br]})
+    return out
+
+
+def replay_dims(kind, args, br):
+    import sys
+
+    if REPO not in sys.path:
+        sys.path.insert(0, REPO)
+    import torch
+
+    from linear_operator.operators import DenseLinearOperator
+
+    A = torch.randn(*((2, 3)[:br]), 4, 4, generator=torch.Generator().manual_seed(0), dtype=torch.float64)
+    try:
+        r = (torch.transpose(DenseLinearOperator(A), *args) if kind == "transpose" else torch.permute(DenseLinearOperator(A), tuple(args))).to_dense()
+        e = torch.transpose(A, *args) if kind == "transpose" else torch.permute(A, tuple(args))
+        bad = r.shape != e.shape or not torch.equal(r, e)
+        return {"reproduced": bool(bad), "detail": f"torch.{kind}(op{tuple(A.shape)}, {tuple(args)}) differs from the dense result" if bad else "native run shows no deviation"}
+    except Exception as ex:  # noqa
+        return {"reproduced": True, "detail": f"torch.{kind}(op{tuple(A.shape)}, {tuple(args)}) raised {ex!r}, the dense call succeeds"[:300]}
+
+
 def check_values_many(forms, br):
     out = []
     for f in forms:
@@ -324,6 +395,8 @@ def shadow_units(tier):
     for br in ((1,) if tier == "quick" else (0, 1)):
         for i in range(0, len(FORMS), 5):
             us.append(Unit(f"C15/shadow/values[{i}:{i + 5}]/br={br}", "contracts.sh_C15", "check_values_many", (FORMS[i:i + 5], br), engine="shadow", timeout_s=600))
+    for br in (1, 2):
+        us.append(Unit(f"C15/shadow/dims/br={br}", "contracts.sh_C15", "check_dim_args", (br,), engine="shadow", timeout_s=900))
     return us
 
 
